@@ -231,6 +231,7 @@ pub fn replay(a: &Args) -> i32 {
         }
     }
     mismatches.truncate(8);
-    print_summary(&json!({"evaluations": evaluations, "mismatches": mismatches}));
+    let rows = tables["codegen_paths"].as_array().unwrap().len() + tables["codegen_pipeline"].as_array().unwrap().len();
+    print_summary(&json!({"evaluations": evaluations, "rows": rows, "mismatches": mismatches}));
     0
 }
